@@ -46,12 +46,13 @@ inductive Reply where
 def maxSizeOf (bs : Nat) : Nat := if bs = 0 then 16384 else bs
 
 /-- `NewFileHeader` + `createNewFile` (the file did not exist) -/
+def initHdr (name : Bytes) (now : Nat) : FileHeader :=
+  { version := 3, flags := 0, createdAt := now % 2 ^ 64, modifiedAt := now % 2 ^ 64,
+    blockSize := 16384, entryCount := 0, blockCount := 0,
+    nameLength := name.length % 2 ^ 16, reserved := List.replicate 14 0 }
+
 def createFile (name : Bytes) (now : Nat) : St :=
-  let hdr : FileHeader :=
-    { version := 3, flags := 0, createdAt := now % 2 ^ 64, modifiedAt := now % 2 ^ 64,
-      blockSize := 16384, entryCount := 0, blockCount := 0,
-      nameLength := name.length % 2 ^ 16, reserved := List.replicate 14 0 }
-  { file := encodeFileHeader hdr ++ name, sess := some ⟨hdr, [], 0, 0, 0⟩ }
+  { file := encodeFileHeader (initHdr name now) ++ name, sess := some ⟨initHdr name now, [], 0, 0, 0⟩ }
 
 /-- `NewFileWriterWithName` on a path that does not exist; with the name-length guard the
     constructor fails and nothing usable is left behind -/
@@ -133,15 +134,21 @@ def St.pending (st : St) : List Entry :=
 
 /-! ### What the API accepted (the Spec side of a history) -/
 
+/-- is a writer open after this call (given it was / was not before) -/
+def openAfter : Bool → Op → Bool
+  | _, .close => false
+  | _, .reopen => true
+  | b, _ => b
+
+/-- the entry this call made the API acknowledge, if any -/
+def acceptedBy (cfg : Cfg) : Bool → Op → List Entry
+  | true, .write e => if accepts cfg e then [e] else []
+  | _, _ => []
+
 /-- the writes of a history the API acknowledged with `nil`, in order -/
 def accepted (cfg : Cfg) : Bool → List Op → List Entry
   | _, [] => []
-  | isOpen, .write e :: t =>
-    if isOpen && accepts cfg e then e :: accepted cfg isOpen t else accepted cfg isOpen t
-  | _, .close :: t => accepted cfg false t
-  | _, .reopen :: t => accepted cfg true t
-  | isOpen, .flush :: t => accepted cfg isOpen t
-  | isOpen, .sync :: t => accepted cfg isOpen t
+  | b, op :: t => acceptedBy cfg b op ++ accepted cfg (openAfter b op) t
 
 /-- The Spec: last writer wins, delete removes, over the acknowledged writes. -/
 def specStep (m : Index) (e : Entry) : Index :=
